@@ -78,7 +78,16 @@ func vWalk(s *Skiplist, cmp CompareFn, tag string) (m vMeasure) {
 				vFail("cycle or over-long chain")
 			}
 			nx, d := cur.getNext(l)
-			vAssert(!d, "no marked node remains linked at quiescence")
+			if d {
+				// a node marked deleted. At level 0 it would be visible to a fresh iterator, so none may remain once
+				// every operation has returned. On an index level a marked node may legitimately linger (an inserter
+				// can link it there after the deleter's unlinking pass; searches remove it lazily): the property speaks
+				// about the nodes NOT marked deleted, so it is skipped here.
+				vAssert(l > 0, "no marked node remains linked at level 0 at quiescence")
+				vReach("marked-node-lingers-on-index-level")
+				cur = nx
+				continue
+			}
 			vAssert(cur.Level() >= l, "node linked above its height")
 			if n > 0 {
 				vAssert(compare(cmp, chain[n-1].Item(), cur.Item()) < 0, "level chain strictly ascending")
